@@ -98,6 +98,27 @@ def roundtrip(E, R, purpose, testnet, kind, form):
     return "ok"
 
 
+def stream_offset(E, R, kind, j):
+    """parsing from a stream reads from the stream's current position: j bytes already consumed, then two keys back to back"""
+    version = SLIP132[(44, False, kind)]
+    p = mk_payload(E, version, kind)
+    junk = E.bytes("junk", j)
+    second = cm.xkey_payload(version, 7, b"\x01\x02\x03\x04", 5, E.bytes("c2", 32), p["keydata"])
+    rd = E.reader(junk + p["payload"] + second)
+    rd.read(j)
+    cls = R.bip32.PrvKeyNode if kind == "prv" else R.bip32.PubKeyNode
+    n1 = E.run(cls.parse, rd)
+    n2 = E.run(cls.parse, rd)
+    if isinstance(n1, Raised) or isinstance(n2, Raised):
+        E.fail("keys parse from a stream")
+        return "raised"
+    E.check_eq([n1.depth, n1.index, n1.chain_code, n1.key], [p["depth"], p["idx"], p["c"], p["keydata"]],
+               "first key is read at the stream's current position")
+    E.check_eq([n2.depth, n2.index, n2.parent_fingerprint], [7, 5, b"\x01\x02\x03\x04"], "second key is read after the first")
+    E.check(rd.pos == j + 156, "each parse consumes exactly 78 bytes")
+    return "ok"
+
+
 def version_algebra(E, R, purpose, testnet, kind):
     V = R.wallet_utils
     v = SLIP132[(purpose, testnet, kind)]
@@ -173,6 +194,10 @@ def cases(tier):
         cs.append(Case("version[%d,%s,%s]" % (purpose, "test" if testnet else "main", kind), "version_algebra",
                        dict(purpose=purpose, testnet=testnet, kind=kind), need=("version -> BIP flavour",)))
         cs.append(Case("length[%08x]" % v, "length_lemma", dict(version=v), need=("lemma: leading Base58 digit is at most the last listed character; length is m",)))
+    for kind in ("prv", "pub"):
+        for j in (0, 3):
+            cs.append(Case("stream_offset[%s,%d]" % (kind, j), "stream_offset", dict(kind=kind, j=j),
+                           need=("second key is read after the first",)))
     cs.append(Case("unknown_version", "unknown_version", need=("a wallet cannot be built from an unknown version",)))
     for t in (False, True):
         cs.append(Case("master[%s]" % t, "master_ser", dict(testnet=t), need=("master xprv: zero depth, fingerprint, child number",)))
